@@ -23,6 +23,8 @@ FILESETS = {
     'F3': {'y': B[2] + B[3] + B[5]},
     'F4': {'z': B[6] + B[0] + B[6], 'w': b'pq'},
     'F5': {'x': B[0] + B[1], 'x2': B[0] + B[1]},
+    # two files of equal size and different content whose chunks straddle the file boundary
+    'F6': {'p': b'P' * 12, 'q': b'Q' * 12},
 }
 SETTINGS_ENC = W.default_settings(True, chunking={'min_length': 8, 'max_length': 8}, hashing={'name': 'blake2b', 'length': 20})
 SETTINGS_UNENC = W.default_settings(False, chunking={'min_length': 8, 'max_length': 8}, hashing={'name': 'sha2', 'bits': 256})
@@ -146,6 +148,8 @@ def apply(state: State, ev, fsdirs, N=2, backend=W.MemBackend, cache_of=None, fa
             try:
                 if ev[0] == 'snap':
                     r = await repo.snapshot(paths=[fsdirs[ev[2]]])
+                elif ev[0] == 'snapargs':
+                    r = await repo.snapshot(paths=snap_paths(fsdirs, ev[2], ev[3]))
                 elif ev[0] == 'del':
                     names = [new.ledger[i]['name'] for i in ev[2]]
                     r = await repo.delete_snapshots(names, confirm=False)
@@ -169,7 +173,7 @@ def apply(state: State, ev, fsdirs, N=2, backend=W.MemBackend, cache_of=None, fa
     res.calls = list(store.calls)
     res.mutations = list(store.mutations)
     new.o = dict(store.o)
-    if ev[0] == 'snap' and r is not None:
+    if ev[0] in ('snap', 'snapargs') and r is not None:
         new.ledger.append({'loc': r.location, 'name': r.name, 'owner': uname, 'fsid': ev[2], 'seq': new.seq,
                            'chunks': [d.hex() for d in r.chunks]})
     if ev[0] == 'del' and res.exc is None:
@@ -178,6 +182,14 @@ def apply(state: State, ev, fsdirs, N=2, backend=W.MemBackend, cache_of=None, fa
     new.hist.append(_ev_json(ev))
     res.state = new
     return res
+
+
+def snap_paths(fsdirs, fsid, order):
+    """The files of a file set as individual path arguments, in the given order."""
+    names = sorted(FILESETS[fsid])
+    if order == 'rev':
+        names = names[::-1]
+    return [fsdirs[fsid] / n for n in names]
 
 
 def _ev_json(ev):
@@ -420,6 +432,11 @@ def run_session(state0: State, events, fsdirs, N=2, backend=W.MemBackend):
                         repo = repos[uname]
                         if ev[0] == 'snap':
                             r = await repo.snapshot(paths=[fsdirs[ev[2]]])
+                        elif ev[0] == 'snapargs':
+                            r = await repo.snapshot(paths=snap_paths(fsdirs, ev[2], ev[3]))
+                        elif ev[0] == 'delall':
+                            own = [e['name'] for e in new.ledger if e['owner'] == uname]
+                            r = await repo.delete_snapshots(own, confirm=False) if own else None
                         elif ev[0] == 'del':
                             r = await repo.delete_snapshots([new.ledger[i]['name'] for i in ev[2]], confirm=False)
                         elif ev[0] == 'clean':
@@ -434,12 +451,14 @@ def run_session(state0: State, events, fsdirs, N=2, backend=W.MemBackend):
                 res.mutations = store.mutations[m0:]
                 res.calls = store.calls[c0:]
                 new.o = dict(store.o)
-                if ev[0] == 'snap' and r is not None:
+                if ev[0] in ('snap', 'snapargs') and r is not None:
                     new.ledger.append({'loc': r.location, 'name': r.name, 'owner': uname, 'fsid': ev[2], 'seq': new.seq,
                                        'chunks': [d.hex() for d in r.chunks]})
                 if ev[0] == 'del' and res.exc is None:
                     gone = set(ev[2])
                     new.ledger = [e for i, e in enumerate(new.ledger) if i not in gone]
+                if ev[0] == 'delall' and res.exc is None:
+                    new.ledger = [e for e in new.ledger if e['owner'] != uname]
                 new.hist.append(_ev_json(ev))
                 res.state = new
                 out.append((ev, new, res))
